@@ -495,6 +495,12 @@ func (group *Group) feedRtpPacket(pkt rtprtcp.RtpPacket) {
 			continue
 		}
 
+		// a session between DESCRIBE and PLAY is sent nothing (SubSession.WriteRtpPacket drops the packet):
+		// it must not use up its wait for a GOP start on a packet it never receives
+		if s.Stage.Load() != rtsp.SubSessionStageReadPlay {
+			continue
+		}
+
 		if !boundaryChecked {
 			switch group.sdpCtx.GetVideoPayloadTypeBase() {
 			case base.AvPacketPtAvc:
